@@ -383,7 +383,7 @@ Proof.
       destruct (rep && (f_len f <=? max_buffered)).
       * eapply core_inv_same; [|exact H2]. unfold reader_dies. same_core_tac.
       * eapply core_inv_same; [|exact H2].
-        eapply same_core_trans; [apply run_handler_same_core|]. unfold reader_dies. same_core_tac.
+        eapply same_core_trans; [apply run_handler_same_core|]. unfold eof_after_dispatch, reader_dies. same_core_tac.
   - (* ConnFirst *) unfold step_conn_first. destruct (phase s); try assumption.
     pose proof (core_inv_peer_app cfg s f Hinv) as H1.
     destruct (max_buffered <? f_len f).
